@@ -73,6 +73,17 @@ PROBES = [
                 "AdjED": [{"t": "A"}, {"t": "Reset", "c": {}}, {"t": "Set", "c": {"n": 3}}],
                 "IntE": [{"kind": "A"}, {"kind": "Reset"}, {"kind": "Set", "n": 1}],
                 "HoldsEmpty": [{"e": {}, "d": {}, "x": {"Reset": {}}}, {"e": {}, "d": {}, "x": "A"}]}},
+    # members whose default FUNCTION returns a non-empty container / a non-zero scalar: an explicitly empty map, an empty list, a
+    # zero are then values of their own and must come back as such
+    {"name": "p_default_fn_containers", "types": [
+        _s("Labeled", [_f("name", STR), _f("labels", ["map", "BTreeMap", STR], mode="default_fn", dvalue={"tier": "free"}),
+                       _f("ports", ["vec", ["int", "u8"]], mode="default_fn", dvalue=[1, 2]),
+                       _f("tags", ["vec", STR], mode="default_fn", dvalue=["x"]),
+                       _f("retries", U32, mode="default_fn", dvalue=3), _f("note", ["option", STR], mode="default_fn", dvalue="n/a")])],
+     "roots": ["Labeled"],
+     "values": {"Labeled": [{"name": "a", "labels": {}, "ports": [], "tags": [], "retries": 0, "note": None},
+                            {"name": "b", "labels": {"tier": "free"}, "ports": [1, 2], "tags": ["x"], "retries": 3, "note": "n/a"},
+                            {"name": "c", "labels": {"k": "v"}, "ports": [9], "tags": [], "retries": 1, "note": ""}]}},
     # an internally tagged enum that looks adjacently tagged: every struct variant carries one field of the same name,
     # omitted on the wire when empty / defaulted
     {"name": "p_lookalike", "types": [_e("Msg", {"internal": "kind"}, [_v("Ping"), _v("Text", "struct", fields=[_f("body", STR)]),
